@@ -1,9 +1,12 @@
 ------------------------------- MODULE MCMUC -------------------------------
 EXTENDS MUC
 St(ty, r, n, c, k) == [ty |-> ty, room |-> r, nick |-> n, call |-> c, n |-> k,
-                       lay |-> IF ty = "inv" THEN <<"u">> ELSE <<>>, pw |-> FALSE]
+                       lay |-> IF ty = "inv" THEN <<"u">> ELSE <<>>, pw |-> FALSE,
+                       shape |-> IF ty = "er" THEN "wf" ELSE "-"]
+(* an error reply to call c of the given shape (MUC!WellFormedShapes / MalformedShapes) *)
+Er(c, sh) == [St("er", "r1", "me", c, 0) EXCEPT !.shape = sh]
 (* an invitation message: children in document order, k <invite/> in the muc#user payload *)
-Inv(lay, k, pw) == [ty |-> "inv", room |-> "r1", nick |-> "-", call |-> "-", n |-> k, lay |-> lay, pw |-> pw]
+Inv(lay, k, pw) == [ty |-> "inv", room |-> "r1", nick |-> "-", call |-> "-", n |-> k, lay |-> lay, pw |-> pw, shape |-> "-"]
 HasU(lay) == \E i \in 1..Len(lay) : lay[i] = "u"
 Layouts == {<<"u">>, <<"b", "u">>, <<"u", "b">>, <<"c">>, <<"b", "c">>, <<"c", "u">>, <<"u", "c">>,
             <<"b", "u", "c">>, <<"c", "b", "u">>, <<"t", "b", "c">>}
@@ -17,6 +20,12 @@ AlphaInv == {Inv(l, k, pw) : l \in {l \in Layouts : HasU(l)}, k \in 0..2, pw \in
             \cup {St("oth", "-", "-", "-", 0), St("un", "rx", "me", "-", 0)}
 (* error answers delivered whole or in two pieces, with the self-presences *)
 AlphaSplit == {St("av", "r1", "me", "-", 0), St("un", "r1", "me", "-", 0)} \cup {St("er", "r1", "me", c, 0) : c \in CallSet}
+(* error replies of several shapes (well-formed: the muc payload echoed and the error / children  *)
+(* after the error; malformed: no children at all / an undecodable attribute), whole or in pieces *)
+AlphaShape == {St("av", "r1", "me", "-", 0), St("un", "r1", "me", "-", 0)}
+              \cup {Er(c, sh) : c \in CallSet, sh \in {"wf", "post", "bare", "badby"}}
+AlphaShapeQ == {St("av", "r1", "me", "-", 0), St("un", "r1", "me", "-", 0)}
+               \cup {Er(c, sh) : c \in CallSet, sh \in {"wf", "bare"}}
 (* two rooms: self-presences and errors only *)
 Alpha2 == {St(ty, r, "me", "-", 0) : ty \in {"av", "un"}, r \in {"r1", "r2"}}
           \cup {St("er", "r1", "me", c, 0) : c \in CallSet}
